@@ -17,7 +17,8 @@
     X(migsched) X(migxs) X(migrate) X(setcb)                                  \
     X(keyset) X(selfset) X(tset) X(keyget) X(selfget) X(tget)                 \
     X(xscreate) X(xsbasic) X(setrank) X(rankcheck) X(xsrevive) X(setmain)      \
-    X(ppush) X(ppushm) X(ppop) X(ppopm) X(premove) X(psize) X(uself) X(pmove) X(stackuse)
+    X(ppush) X(ppushm) X(ppop) X(ppopm) X(premove) X(psize) X(uself) X(pmove) X(stackuse)    \
+    X(rdlockn) X(rwunlockn)
 
 enum {
 #define X(n) OP_##n,
@@ -478,6 +479,12 @@ static void exec_op(actor *a, op_t *o)
             break;
         case OP_rwunlock:
             op_rwunlock(a, a0);
+            break;
+        case OP_rdlockn:
+            op_rdlockn(a, a0, a1);
+            break;
+        case OP_rwunlockn:
+            op_rwunlockn(a, a0, a1);
             break;
         case OP_rdlock_rej:
             op_rwlock_rej(a, a0, 0);
